@@ -99,6 +99,9 @@ def snapshot(rec):
 
 
 # ------------------------------------------------------------------ fault injection
+KEEP = []      # wrappers of one event stay alive until the event is complete
+
+
 class Injected(Exception):
     pass
 
@@ -146,6 +149,7 @@ def call_assemble(vcls, mclss, vrec, mrecs, id_, name, fault=None):
     try:
         vec = vcls(vrec)
         mods = [c(r) for c, r in zip(mclss, mrecs)]
+        KEEP.extend([vec] + mods)
         kw = {}
         if id_ is not None:
             kw["id"] = id_
@@ -220,6 +224,7 @@ def build_inputs(r):
 def exec_assembly(r):
     """recipe -> [Assemble event] (plus twins executed on fresh copies of the inputs)"""
     loader.load()
+    del KEEP[:]
     vcls, mclss, vrec, mrecs = build_inputs(r)
     cutter = vcls.cutter
     from . import enz as enzmod
@@ -227,6 +232,8 @@ def exec_assembly(r):
     inputs = [vrec] + mrecs
     before = [snapshot(x) for x in inputs]
     proj_in = [rec_proj(x) for x in inputs]
+    if r.get("warmup"):        # the logged call is the second one on the same objects
+        call_assemble(vcls, mclss, vrec, mrecs, r.get("id"), r.get("name"), None)
     out = call_assemble(vcls, mclss, vrec, mrecs, r.get("id"), r.get("name"), r.get("fault"))
     prod = out.pop("_product", None)
     after = [snapshot(x) for x in inputs]
